@@ -64,6 +64,16 @@ class Reroot:
 class RerootSeq:
     @staticmethod
     def gen(rng, x):
+        if rng.random() < 0.4:
+            # first a node below a root, then that root itself: by then it is no longer a root and must be rerooted to again
+            par = dict(zip((int(v) for v in x.nodes.node_id.values), (int(v) for v in x.nodes.parent_id.values)))
+            nr = [i for i in ids_of(x) if par[i] >= 0]
+            if nr:
+                a = _pick(rng, nr)
+                r = a
+                while par[r] >= 0:
+                    r = par[r]
+                return dict(rs=[a, r] + ([_pick(rng, ids_of(x))] if rng.random() < 0.3 else []))
         return dict(rs=_pick(rng, ids_of(x), int(rng.integers(2, 5))))
 
     @staticmethod
@@ -242,6 +252,18 @@ class RemoveNodes:
         ids = ids_of(x)
         if len(ids) < 2:
             return None
+        if rng.random() < 0.4:
+            # a run of ADJACENT nodes, listed child first (or in random order): grandchildren must skip all of them
+            par = dict(zip((int(v) for v in x.nodes.node_id.values), (int(v) for v in x.nodes.parent_id.values)))
+            j = int(ids[int(rng.integers(len(ids)))])
+            run_ = []
+            while j >= 0 and len(run_) < int(rng.integers(2, 5)):
+                run_.append(j)
+                j = par[j]
+            if len(run_) >= 2 and len(run_) < len(ids):
+                if rng.random() < 0.3:
+                    run_ = [int(v) for v in rng.permutation(run_)]
+                return dict(which=run_)
         return dict(which=_pick(rng, ids, int(rng.integers(1, max(2, len(ids) // 2)))))
 
     @staticmethod
@@ -409,7 +431,19 @@ class Rewire:
         if not nr:
             return None
         # optionally name the root explicitly: any node, in particular one of a fragment other than the first root's
-        return dict(drop=_pick(rng, nr), root=(_pick(rng, ids_of(x)) if rng.random() < 0.5 else None))
+        root = _pick(rng, ids_of(x)) if rng.random() < 0.5 else None
+        if root is not None and rng.random() < 0.6:
+            # a root in ANOTHER fragment than the neuron's first root (if there is one)
+            par = dict(zip((int(v) for v in x.nodes.node_id.values), (int(v) for v in x.nodes.parent_id.values)))
+            def top(i):
+                while par[i] >= 0:
+                    i = par[i]
+                return i
+            first = top(int(x.root[0]))
+            other = [i for i in ids_of(x) if top(i) != first]
+            if other:
+                root = _pick(rng, other)
+        return dict(drop=_pick(rng, nr), root=root)
 
     @staticmethod
     def apply(x, p, inplace):
